@@ -285,8 +285,9 @@ def weight_def(eng, res, rule="R-WEIGHT-DEF"):
         g = [(src(t), pol) for t, pol in cfg.guard_exprs(cfg.node_of(n))]
         if isinstance(v, ast.Constant) and v.value == 1.0:
             kinds_w.setdefault("default", []).append((n, g))
-        elif src(v) in ("self.transitions.sum()", "np.sum(self.transitions)"):
-            kinds_w.setdefault("list-sum", []).append((n, g))
+        elif src(v) in ("self.transitions.sum()", "np.sum(self.transitions)") or any(
+                isinstance(t_.value, ast.Name) and src(v) in (f"{t_.value.id}.sum()", f"np.sum({t_.value.id})") and getattr(t_, "_parent") is getattr(n, "_parent") for t_ in ts):
+            kinds_w.setdefault("list-sum", []).append((n, g))  # also: the list held in a local that is stored as the list in the same block
         elif isinstance(v, ast.Subscript) and isinstance(v.slice, ast.Constant) and v.slice.value == 0:
             kinds_w.setdefault("single", []).append((n, g, src(v.value)))
         else:
@@ -297,6 +298,10 @@ def weight_def(eng, res, rule="R-WEIGHT-DEF"):
     kinds_t = {}
     for n in ts:
         v = n.value
+        if isinstance(v, ast.Name):
+            dv = [x for x in flow.reaching(v.id, cfg.node_of(n))] if flow.is_local(v.id) else []
+            if len(dv) == 1 and dv[0].kind == "assign" and dv[0].value is not None:
+                v = dv[0].value  # the array is built in a local first
         if isinstance(v, ast.Constant) and v.value is None:
             kinds_t.setdefault("none", []).append(n)
         elif isinstance(v, ast.Call) and callee_name(v) in ("asarray", "array") and v.args:
